@@ -82,7 +82,23 @@ TFile ==
              /\ FileConverged(cur, Ev.ev, PropOfFile(Ev), SetOf(Ev.after)),
              ExpFile(Ev))
 
+\* a hot-spot payload whose rule carries the specific items `items' (described structurally) was delivered: `got' is the
+\* decoded SpecificItems map of the rule in force, `probes' the traffic whose argument is the described value
+ItemsEventOK(e) ==
+    /\ ~e.panic /\ ~e.err /\ e.found
+    /\ ItemsOK(e.items, e.got)
+    /\ \A k \in DOMAIN e.probes : ItemProbeOK(e.items, e.probes[k])
+ExpItems(e) ==
+    [why |-> IF e.panic THEN "panic escaped" ELSE IF e.err \/ ~e.found THEN "payload not applied"
+             ELSE IF ~ItemsOK(e.items, e.got) THEN "specific items differ from the described ones" ELSE "described value not limited by its own threshold",
+     described |-> [i \in DOMAIN e.items |-> [keys |-> DescribedKeys(e.items[i]), thr |-> e.items[i].thr]],
+     badprobes |-> SelectSeq(e.probes, LAMBDA p : ~ItemProbeOK(e.items, p))]
+TItems ==
+    /\ IsEvent("items")
+    /\ UNCHANGED <<tr, cur, last>>
+    /\ Judge(ItemsEventOK(Ev), ExpItems(Ev))
+
 TInit == l = 1 /\ tr = 0 /\ cur = {} /\ last = "" /\ failed = FALSE
-TNext == TNew \/ TDeliver \/ TFile
+TNext == TNew \/ TDeliver \/ TFile \/ TItems
 TSpec == TInit /\ [][TNext]_tvars
 =============================================================================
